@@ -427,7 +427,7 @@ var skipInit = map[string]bool{
 	"github.com/sirupsen/logrus": true, "internal/cpu": true, "golang.org/x/sys/cpu": true, "crypto/x509": true,
 	"internal/testlog": true, "testing": true, "flag": true, "io/fs": true, "path/filepath": true, "os/exec": true,
 	"internal/syscall/unix": true, "internal/oserror": true, "context": false, "fmt": true, "encoding/json": true,
-	"mime": true, "net/textproto": true, "crypto/internal/fips140": true, "hash/crc32": true, "compress/flate": true, "compress/gzip": true,
+	"mime": false, "net/textproto": false, "crypto/internal/fips140": true, "hash/crc32": true, "compress/flate": true, "compress/gzip": true,
 	"vendor/golang.org/x/net/http2/hpack": true, "golang.org/x/net/http2/hpack": true, "net/http/internal": true, "math/big": true,
 	"github.com/miekg/dns": true, "golang.org/x/net/idna": true, "vendor/golang.org/x/net/idna": true, "golang.org/x/text/unicode/norm": true,
 	"vendor/golang.org/x/text/unicode/norm": true, "vendor/golang.org/x/text/unicode/bidi": true, "net/netip": false, "unicode": false,
@@ -442,11 +442,14 @@ func (e *Engine) ensureInit(pkg *ssa.Package) {
 	}
 	e.pkgState[pkg] = 1
 	path := pkg.Pkg.Path()
-	if skipInit[path] || strings.HasPrefix(path, "crypto/") || strings.HasPrefix(path, "internal/") || strings.HasPrefix(path, "runtime/") || strings.HasPrefix(path, "vendor/") {
-		if !(path == "internal/bytealg" || path == "internal/stringslite" || path == "internal/itoa") {
-			e.pkgState[pkg] = 3 // skipped
-			return
-		}
+	skip := skipInit[path] || strings.HasPrefix(path, "crypto/") || strings.HasPrefix(path, "runtime/") ||
+		(strings.HasPrefix(path, "internal/") && !(path == "internal/bytealg" || path == "internal/stringslite" || path == "internal/itoa" || path == "internal/byteorder"))
+	if strings.HasPrefix(path, "vendor/") && !strings.Contains(path, "httpguts") {
+		skip = true
+	}
+	if skip {
+		e.pkgState[pkg] = 3 // skipped
+		return
 	}
 	init := pkg.Func("init")
 	if init == nil {
